@@ -62,6 +62,11 @@ CHECKS.update({
    TRUST + " For non-dyadic q the rank of either the exact or the float64 product q(n-1) is accepted.", "TLA+ spec (Dataset.tla) + TLC refinement check + behaviours replayed on the real Dataset", "6 (C20)"),
 })
 
+CHECKS.update({
+ "C17": ("sketch", "Sketch.tla's ChangeMap action fixes the structural part (requested mapping, source's variant, source unchanged, equal mapping and scale 1 = exact copy, exact count kept); generated histories build sketches and convert them (all ordered pairs of mapping kinds, alphas coarser/finer/equal, scales 1/2..1e3, 1/gamma, gamma, all store kinds, both variants); at each conversion the real result is checked against the REAL source: zero weight ==, total within 1e-9, no negative bin (read through ToProto), cumulative locality sandwich at every target-bin boundary, exact statistics rescaled, and every q=a/8 answer within the combined accuracy of scale x the estimate of a source bin the specification allows at that rank.",
+   TRUST + " The proportional split is float arithmetic and is NOT modelled: its result is judged by the numeric relation R (combined-accuracy bound, locality sandwich, 1e-9 slivers). Values around 1.0 so that scaled values stay inside both ranges.", SK + " + numeric relation for the split", "6 (C17)"),
+})
+
 NA = {
  "C03": "pure float64 numerics of one function over ~2^62 inputs; TLC has no floating point and 32-bit integers, so a TLA+ model would only be a test enumerator with the oracle in Go (DESIGN.md section 7)",
 }
@@ -96,7 +101,7 @@ m = {
  },
  "engines": [
    {"name": "sketch", "path": "spec/Sketch.tla spec/StoreOps.tla spec/MC_Sketch.tla spec/Gen_Sketch.tla harness/cmd/vcheck/sketch*.go harness/cmd/vcheck/rel.go",
-    "serves_properties": ["C01", "C02", "C10", "C11", "C12", "C13", "C14", "C15", "C16"], "kind_free_text": "TLA+ specification of DDSketch / DDSketchWithExactSummaryStatistics over value tokens; TLC model checking; behaviours replayed on real sketches"},
+    "serves_properties": ["C01", "C02", "C06", "C09", "C10", "C11", "C12", "C13", "C14", "C15", "C16", "C17"], "kind_free_text": "TLA+ specification of DDSketch / DDSketchWithExactSummaryStatistics over value tokens; TLC model checking; behaviours replayed on real sketches"},
    {"name": "wire", "path": "spec/Wire.tla spec/Gen_Wire.tla spec/Trace_Wire.tla harness/cmd/vcheck/wire.go harness/cmd/vcheck/wirefmt.go",
     "serves_properties": ["C07", "C08"], "kind_free_text": "TLA+ specification of the documented block format; TLC enumerates streams; independent serializer/tokenizer binds it to the real encoder and decoders"},
    {"name": "varint", "path": "spec/Varint.tla spec/Gen_Varint.tla spec/Trace_Varint.tla harness/cmd/vcheck/varint.go", "serves_properties": ["C18"], "kind_free_text": "bit-vector TLA+ model of the codecs; vectors and trace validation"},
